@@ -255,7 +255,8 @@ fn eval_primary_expr(
         expr::PrimaryExpr::Function(func) => eval_func_expr(func, node, context),
         expr::PrimaryExpr::Literal(literal) => Ok(literal.to_string().as_value()),
         expr::PrimaryExpr::Number(number) => Ok(number.parse::<f64>().unwrap().as_value()),
-        expr::PrimaryExpr::Variable(_) => unimplemented!("Not support `VariableReference`."),
+        // Not support `VariableReference`: there are no variable bindings.
+        expr::PrimaryExpr::Variable(_) => Err(error::Error::InvalidType),
     }
 }
 
@@ -489,7 +490,9 @@ fn eval_node_test(
             }
             expr::NameTest::QName(qname) => equal_qname(qname, node, context),
         },
-        expr::NodeTest::PI(_) => unimplemented!("Not support `processing-instruction`."),
+        expr::NodeTest::PI(target) => {
+            Ok(node.node_type() == dom::NodeType::PI && node.node_name() == *target)
+        }
         expr::NodeTest::Type(ty) => match ty {
             expr::NodeType::Comment => Ok(node.node_type() == dom::NodeType::Comment),
             expr::NodeType::Node => Ok(true),
